@@ -19,6 +19,9 @@ class InvertedBooleanCheckTransformer(LibcstResultTransformer):
         if isinstance(updated_node.operator, cst.Not) and isinstance(
             (comparison := updated_node.expression), cst.Comparison
         ):
+            if len(comparison.comparisons) > 1:
+                # `not a == b == c` is not `a != b != c`: leave chains alone
+                return updated_node
             return self.report_new_comparison(original_node, comparison)
         return updated_node
 
